@@ -8,15 +8,18 @@ from ..core import Verdict, close
 from ..refs import units_ref as R
 
 ID = "C10"
-RULE = ("Formula ASTs: species = element symbol (118) with optional {A}, {A+-q}, {+-q}, {+-} suffix (A from that element's "
-        "isotope table), D, T, nucleons [p] [n] [e]; counts 1..30; groups with multipliers nested <= 3 (4 thorough); items "
-        "joined by juxtaposition, one blank or explicit ' + '; explicit ' * n'; both isotope modes; dict construction, "
-        "Substance + Substance and Substance * n. Oracle: independent expansion to a Counter keyed by "
-        "(element, isotope, charge); per-species Z, N=A-Z, e=Z+q, mass=M_A+q*m_e (natural: abundance-weighted mean; "
-        "most-abundant: arg-max abundance) read from PT_DATA and the unit tables; 'sum' row = count-weighted sums. "
-        "Non-trivial: a group with multiplier followed by another item, or nesting >= 2, or a charged/isotopic species "
-        "Round 4: augmented += and *=, a zero multiple inside a sum, in-place add() on results. "
-        "with count > 1. Distinct = distinct case JSON.")
+RULE = (
+    'Formula ASTs: species = element symbol (118) with optional {A}, {A+-q}, {+-q}, {+-} suffix (A from that '
+    "element's isotope table), D, T, nucleons [p] [n] [e]; counts 1..30; groups with multipliers nested <= 3 (4 "
+    "thorough); items joined by juxtaposition, one blank or explicit ' + '; explicit ' * n'; both isotope modes; "
+    'dict construction, Substance + Substance and Substance * n. Oracle: independent expansion to a Counter keyed '
+    'by (element, isotope, charge); per-species Z, N=A-Z, e=Z+q, mass=M_A+q*m_e (natural: abundance-weighted '
+    "mean; most-abundant: arg-max abundance) read from PT_DATA and the unit tables; 'sum' row = count-weighted "
+    'sums. Non-trivial: a group with multiplier followed by another item, or nesting >= 2, or a charged/isotopic '
+    'species with count > 1. Round 4: augmented += and *=, a zero multiple inside a sum, in-place add() on '
+    'results. Later rounds: two-digit charge numbers; Element operands of a species new to the sum, in the other '
+    'isotope mode; operands re-read after the sum. Distinct = distinct case JSON.'
+)
 ASSUMPTIONS = [
     "elements whose isotopes all have zero natural abundance are used only with an explicit isotope",
     "D and T carry no suffix (none is documented)",
